@@ -150,6 +150,37 @@ func editTL2(path string, e tl2Edit) (planted string, err error) {
 			f.Combinators[i].TypeDecl.Magic = f.Combinators[j].FuncDecl.Magic
 			planted = fmt.Sprintf("TL2 type %s has the magic %08x of function %s", f.Combinators[i].TypeDecl.Name, f.Combinators[j].FuncDecl.Magic, f.Combinators[j].FuncDecl.Name)
 		}
+	case "function-function":
+		if len(funcs) >= 2 {
+			i, j := funcs[e.A%len(funcs)], funcs[e.B%len(funcs)]
+			if i == j {
+				j = funcs[(e.B+1)%len(funcs)]
+			}
+			if i != j {
+				f.Combinators[j].FuncDecl.Magic = f.Combinators[i].FuncDecl.Magic
+				planted = fmt.Sprintf("TL2 functions %s and %s share magic %08x", f.Combinators[i].FuncDecl.Name, f.Combinators[j].FuncDecl.Name, f.Combinators[i].FuncDecl.Magic)
+			}
+		}
+	case "zero-type", "zero-function":
+		// an explicit magic 00000000: the AST has no spelling for it (0 = no magic), so a marker value is printed and
+		// replaced in the text
+		const marker = 0x5eed0000
+		if e.Plant == "zero-type" && len(types) >= 1 {
+			i := types[e.A%len(types)]
+			f.Combinators[i].TypeDecl.Magic = marker
+			planted = fmt.Sprintf("TL2 type %s has the explicit magic 00000000", f.Combinators[i].TypeDecl.Name)
+		} else if e.Plant == "zero-function" && len(funcs) >= 1 {
+			j := funcs[e.B%len(funcs)]
+			f.Combinators[j].FuncDecl.Magic = marker
+			planted = fmt.Sprintf("TL2 function %s has the explicit magic 00000000", f.Combinators[j].FuncDecl.Name)
+		}
+		if planted != "" {
+			text := f.String()
+			if !strings.Contains(text, "#5eed0000") {
+				return "", os.WriteFile(path, []byte(text), 0o644)
+			}
+			return planted, os.WriteFile(path, []byte(strings.Replace(text, "#5eed0000", "#00000000", 1)), 0o644)
+		}
 	}
 	return planted, os.WriteFile(path, []byte(f.String()), 0o644)
 }
@@ -227,7 +258,7 @@ func checkC14TL2(c tl2Case) pbt.Result {
 	}
 	out, err := goBuild(mod, "g")
 	if err != nil {
-		if pbt.Known("F44") && !pbt.Replaying() && strings.Contains(out, "case-insensitive import collision") {
+		if pbt.Known("F44") && !pbt.Replaying() && (strings.Contains(out, "case-insensitive import collision") || strings.Contains(out, "case-insensitive file name collision")) {
 			return pbt.Result{Excluded: "F44"}
 		}
 		return pbt.Fail("tl2gen accepted the TL2 schema (options %v) but the generated code does not build:\n%s\n--- schema.tl2 ---\n%s", c.Args, tailStr(out, 12), tl2text)
@@ -256,7 +287,7 @@ func checkC24TL2(c tl2Case) pbt.Result {
 	if code == 0 {
 		if planted != "" {
 			tl2text, _ := os.ReadFile(files[1])
-			return pbt.Fail("tl2gen accepts a schema whose explicit TL2 magics are not unique: %s\n--- schema.tl2 ---\n%s", planted, tl2text)
+			return pbt.Fail("tl2gen accepts a schema whose explicit TL2 magics are not unique and non-zero: %s\n--- schema.tl2 ---\n%s", planted, tl2text)
 		}
 		return pbt.Result{Classes: append(cls, "tl2gen-accepts")}
 	}
@@ -268,7 +299,7 @@ func checkC24TL2(c tl2Case) pbt.Result {
 
 func TestC24TagsTL2(t *testing.T) {
 	pbt.Run(t, "unique-tags-tl2", pbt.Scale(150, 6000), func(rt *rapid.T) tl2Case {
-		c := genTL2Case(rt, []string{"none", "type-type", "type-type", "type-function"})
+		c := genTL2Case(rt, []string{"none", "type-type", "type-type", "type-function", "type-function", "function-function", "zero-type", "zero-function"})
 		c.Args = nil
 		return c
 	}, checkC24TL2)
